@@ -20,7 +20,9 @@ ERROR awkward_ListOffsetArray_reduce_nonlocal_nextshifts_64(
     int64_t stop = offsets[i + 1];
     int64_t count = stop - start;
 
-    if (starts[parents[i]] == i) {
+    // first list of its parent ('starts' may count lists that an option-type
+    // node above has already removed, so it cannot be used to find that out)
+    if (i == 0  ||  parents[i] != parents[i - 1]) {
       for (int64_t k = 0;  k < maxcount;  k++) {
         nummissing[k] = 0;
       }
